@@ -10,7 +10,7 @@ import sys
 from mc import refsel
 from mc.obs import obs
 from mc.report import Run, jhash
-from mc.space import explore
+from mc.space import CaseTimeout, explore
 
 PROP = "C09"
 RULE = ("call-target spellings T (builtins, methods on fields/canaries/nested records, chains off call results / constants / operator "
@@ -263,6 +263,8 @@ def run_case(case):
 
     if case.get("kind") == "pure":
         return run_pure(case)
+    if case.get("kind") == "warm":
+        return run_warm(case)
     expr = case["expr"]
     h = jhash(case)
     label = classify(expr)
@@ -290,6 +292,8 @@ def run_case(case):
                         shared[0] = Selector(expr)
                     shared[0].match(rec)
             except RecursionError:
+                raise
+            except (CaseTimeout, MemoryError):
                 raise
             except BaseException as e:  # noqa: BLE001
                 raised = e
@@ -426,7 +430,100 @@ def run_pure(case):
     return {"ev": 3, "h": h, "nt": True, "out": outs, "viol": viol, "count": {"purity_programs": 1}}
 
 
+_WARM = []
+
+
+def warm_record():
+    """A record of the canary type on which the lazily reached parts of a program are never reached: no list elements, n == 0."""
+    if not _WARM:
+        base = setup()[0]
+        _WARM.append(base._desc.recordType(c=base.c, d=base.d, s=base.s, n=0, l=[], sub=None, _generated=base._generated))
+    return _WARM[0]
+
+
+# the target sits where evaluation only gets to for some records: the element of a generator over a (here: empty) list field, the
+# right-hand side of and / or, a generator condition, the tail of a comparison chain
+LAZY = {"gen-over-field": "any(%s for _i in r.l)", "and-field": "r.n and %s", "or-field": "not r.n or %s", "gen-if-field": "any(1 for _i in r.l if %s)",
+        "gen-over-field-cmp": "all(%s == 1 for _i in r.l)", "and-deep": "r.n > 0 and (r.s == 'abc' and (r.n >= 1 and %s))", "chain-tail": "0 < r.n < %s"}
+# (chain-tail: on the warm record 0 < 0 is False and Python never evaluates the third operand)
+
+
+def run_warm(case):
+    """ONE Selector object is matched n times on a record that never gets to the target, then on records that do: the target is
+    refused exactly as on the first evaluation (a selector that is promoted, cached or trusted after n quiet evaluations shows here)."""
+    from flow.record.selector import Selector
+
+    expr, n = case["expr"], case["n"]
+    h = jhash(case)
+    label = classify(expr)
+    viol = []
+    try:
+        sel = Selector(expr)
+    except RecursionError:
+        raise
+    except BaseException:  # noqa: BLE001  refused when it is parsed: nothing can be warmed up
+        return {"ev": 1, "h": h, "nt": False, "out": ["warm:%s:refused-by-constructor" % label], "viol": []}
+    warm = warm_record()
+    quiet = 0
+    del LOG[:]
+    ARMED[0] = True
+    try:
+        for _ in range(n):
+            try:
+                sel.match(warm)
+                quiet += 1
+            except RecursionError:
+                raise
+            except (CaseTimeout, MemoryError):
+                raise
+            except BaseException:  # noqa: BLE001  (an engine may also refuse the program before it gets anywhere)
+                pass
+    finally:
+        ARMED[0] = False
+    if LOG:
+        viol.append(("C09:invoked:warm-up:%s:%s" % (case["t_class"], LOG[0]), case, {"expr": expr, "events": LOG[:5]}))
+    outs = ["warm:%s:%s" % (label, "quiet" if quiet == n else "refused-early" if quiet == 0 else "mixed")]
+    for i, rec in enumerate(setup()):
+        before = obs(rec)
+        del LOG[:]
+        raised = None
+        ARMED[0] = True
+        try:
+            try:
+                sel.match(rec)
+            except RecursionError:
+                raise
+            except (CaseTimeout, MemoryError):
+                raise
+            except BaseException as e:  # noqa: BLE001
+                raised = e
+        finally:
+            ARMED[0] = False
+        events = list(LOG)
+        trip = os.path.exists(TRIP + "-" + str(os.getpid())) or os.path.exists(TRIP)
+        for p in (TRIP + "-" + str(os.getpid()), TRIP):
+            if os.path.exists(p):
+                os.unlink(p)
+        if label == "refused":
+            if events or trip:
+                viol.append(("C09:invoked:after-%d-quiet-evaluations:%s:%s" % (n, case["t_class"], (events or ["tripwire"])[0]), case, {"expr": expr, "events": events[:5], "record": i}))
+            elif raised is None:
+                viol.append(("C09:not-refused:after-%d-quiet-evaluations:%s" % (n, case["t_class"]), case, {"expr": expr, "record": i}))
+        if obs(rec) != before:
+            viol.append(("C09:record-modified:after-quiet-evaluations:%s" % case["t_class"], case, {"expr": expr, "record": i}))
+    seen = set()
+    v2 = [v for v in viol if not (v[0] in seen or seen.add(v[0]))]
+    return {"ev": n + 3, "h": h, "nt": label == "refused", "out": outs, "viol": v2, "count": {"warm_up_evaluations": n}}
+
+
 def cases(tier):
+    for n in ((1100,) if tier != "thorough" else (130, 1100, 4200, 70000)):
+        for t in (T if n <= 1100 else T[::3] if n < 10000 else T[::17]):
+            tc = t_class(t)
+            for cn, c in LAZY.items():
+                if n > 1100 and cn not in ("gen-over-field", "and-field"):
+                    continue
+                yield {"kind": "warm", "expr": c % ("(%s)" % t if not t.startswith("(") else t), "t": t, "ctx": cn, "t_class": tc, "n": n}
     for e in PURE:
         yield {"expr": e, "kind": "pure", "t_class": "pure"}
     for t in T:
